@@ -52,4 +52,9 @@ for P in $PROPS; do
   [ -n "$MT_KEEP" ] && { mkdir -p /tmp/mtkeep/$NAME; cp "$LOG" /tmp/mtkeep/$NAME/; cp -r "$W/verif/replays" /tmp/mtkeep/$NAME/ 2>/dev/null; }
 done
 echo "]" >> "$TMP"
-jq . "$TMP" > "$D/result.json"
+# merge with earlier measurements of the same seeded change (latest result per property wins)
+if [ -f "$D/result.json" ]; then
+  jq -s '(.[0] + .[1]) | group_by(.property) | map(.[-1])' "$D/result.json" "$TMP" > "$W/merged.json" && cp "$W/merged.json" "$D/result.json"
+else
+  jq . "$TMP" > "$D/result.json"
+fi
